@@ -26,6 +26,9 @@ func init() {
 }
 
 type c17File struct {
+	// Rel: the file as named relative to the child's working directory ("x.updog", "../x.updog", ".x.updog"): three
+	// different files whose names differ only in leading dots and slashes
+	Rel     string       `json:"rel"`
 	Path    string       `json:"path"`
 	Rows    []oracle.Row `json:"rows"`
 	Queries []c17Query   `json:"queries"`
@@ -56,31 +59,34 @@ type c17History struct {
 }
 
 type c17Spec struct {
+	Cwd       string       `json:"cwd"` // working directory of the child (the relative names are relative to it)
 	Files     []c17File    `json:"files"`
 	Histories []c17History `json:"histories"`
 }
 
 type c17Result struct {
-	ID               string   `json:"id"`
-	Violations       []string `json:"violations"`
-	Queries          int      `json:"queries"`
-	Handles          int      `json:"handles"`
-	ReopenAfterClose int      `json:"reopen_after_close"`
-	BurstRounds      int      `json:"burst_rounds"`
-	BurstGoroutines  int      `json:"burst_goroutines"`
-	MaxKeysLive      int      `json:"max_keys_live"`
-	TwoOptionOverlap int      `json:"two_option_overlap"`
-	SameOptionShare  int      `json:"same_option_share"`
-	LockProbes       int      `json:"lock_probes"`
-	HeldProbes       int      `json:"held_probes"`
-	BadOpens         int      `json:"bad_opens"`
-	ChurnRounds      int      `json:"churn_rounds"`
-	Pings            int      `json:"pings"`
-	Transactions     int      `json:"transactions"`
-	TxOverlaps       int      `json:"tx_overlaps"`
-	RawConns         int      `json:"raw_conns"`
-	PingChurnRounds  int      `json:"ping_churn_rounds"`
-	Done             bool     `json:"done"`
+	ID                 string   `json:"id"`
+	Violations         []string `json:"violations"`
+	Queries            int      `json:"queries"`
+	Handles            int      `json:"handles"`
+	ReopenAfterClose   int      `json:"reopen_after_close"`
+	BurstRounds        int      `json:"burst_rounds"`
+	BurstGoroutines    int      `json:"burst_goroutines"`
+	MaxKeysLive        int      `json:"max_keys_live"`
+	TwoOptionOverlap   int      `json:"two_option_overlap"`
+	SameOptionShare    int      `json:"same_option_share"`
+	LockProbes         int      `json:"lock_probes"`
+	HeldProbes         int      `json:"held_probes"`
+	BadOpens           int      `json:"bad_opens"`
+	ChurnRounds        int      `json:"churn_rounds"`
+	Pings              int      `json:"pings"`
+	Transactions       int      `json:"transactions"`
+	TxOverlaps         int      `json:"tx_overlaps"`
+	RawConns           int      `json:"raw_conns"`
+	PingChurnRounds    int      `json:"ping_churn_rounds"`
+	MissingFileQueries int      `json:"missing_file_queries"`
+	RelativeOpens      int      `json:"relative_opens"`
+	Done               bool     `json:"done"`
 }
 
 var c17OptStrings = []string{"", "?preload=true", "?lrucache=true&lrucachesize=2000", "?preload=true&lrucache=true&lrucachesize=100000", "?lrucachesize=100000&lrucache=true&preload=true"}
@@ -90,6 +96,12 @@ func workerC17(args []string) int {
 	if err := readSpec(args[0], &spec); err != nil {
 		fmt.Fprintln(os.Stderr, err)
 		return 3
+	}
+	if spec.Cwd != "" {
+		if err := os.Chdir(spec.Cwd); err != nil {
+			fmt.Fprintln(os.Stderr, err)
+			return 3
+		}
 	}
 	// expected tables, computed before anything runs
 	type exp struct {
@@ -195,8 +207,43 @@ func workerC17(args []string) int {
 				break
 			}
 			switch op.Op {
+			case "appear":
+				// the index file is written to a path that did not exist so far (handles on it may already exist)
+				if err := ix.CopyFile(spec.Files[0].Path, spec.Files[op.File].Path); err != nil {
+					add("op %d: cannot write the late file: %v", oi, err)
+				}
+			case "vanish":
+				os.Remove(spec.Files[op.File].Path)
+			case "expect-error":
+				// a query on a handle whose file does not exist (yet): an error, no panic, no hang
+				hd := handles[op.H]
+				if hd == nil || hd.closed {
+					continue
+				}
+				f := spec.Files[hd.file]
+				var qerr error
+				if p, msg, _ := vf.Try(func() {
+					var rows *sql.Rows
+					rows, qerr = hd.db.Query(f.Queries[op.Q%len(f.Queries)].Text)
+					if qerr == nil {
+						rows.Close()
+					}
+				}); p {
+					add("op %d: query on a handle whose file does not exist panicked: %s", oi, msg)
+				} else if qerr == nil {
+					add("op %d: query on a handle whose file does not exist succeeded", oi)
+				}
+				res.MissingFileQueries++
 			case "open":
-				db, err := sql.Open("updog", "file:"+spec.Files[op.File].Path+op.Opts)
+				name := spec.Files[op.File].Path
+				if op.N == 1 && spec.Files[op.File].Rel != "" {
+					name = spec.Files[op.File].Rel
+					if op.File == 0 && op.H%2 == 1 {
+						name = "./" + name
+					}
+					res.RelativeOpens++
+				}
+				db, err := sql.Open("updog", "file:"+name+op.Opts)
 				if err != nil {
 					add("op %d: sql.Open failed: %v", oi, err)
 					continue
@@ -629,6 +676,9 @@ func workerC17(args []string) int {
 		}
 		if len(res.Violations) == 0 {
 			for fi, f := range spec.Files {
+				if _, serr := os.Stat(f.Path); serr != nil {
+					continue // the late file is not there outside its histories
+				}
 				free, perr := lockFreeSoon(f.Path)
 				res.LockProbes++
 				if perr != nil || !free {
@@ -665,7 +715,40 @@ func c17GenHistory(rng *rand.Rand, id string, nfiles, nq int) c17History {
 		h.Ops = append(h.Ops, c17Op{Op: op, H: hd, Q: rng.Intn(nq)})
 	}
 	closeH := func(hd int) { h.Ops = append(h.Ops, c17Op{Op: "close", H: hd}) }
-	switch rng.Intn(11) {
+	switch rng.Intn(13) {
+	case 11: // a handle on a file that does not exist yet: errors first, correct rows once the file is there
+		o := c17OptStrings[rng.Intn(len(c17OptStrings))]
+		late := nfiles // index of the late file
+		hd := open(late, o)
+		h.Ops = append(h.Ops, c17Op{Op: "expect-error", H: hd, Q: rng.Intn(nq)})
+		if rng.Intn(2) == 0 {
+			h.Ops = append(h.Ops, c17Op{Op: "expect-error", H: hd, Q: rng.Intn(nq)})
+		}
+		h.Ops = append(h.Ops, c17Op{Op: "appear", File: late})
+		q(hd)
+		hd2 := open(late, o)
+		q(hd2)
+		if rng.Intn(2) == 0 {
+			h.Ops = append(h.Ops, c17Op{Op: "burst", H: hd2, Q: rng.Intn(nq), N: 2 + rng.Intn(15)})
+		}
+		closeH(hd)
+		q(hd2)
+		closeH(hd2)
+		h.Ops = append(h.Ops, c17Op{Op: "vanish", File: late})
+	case 12: // the three files under their relative names, same options, alive at once
+		o := c17OptStrings[rng.Intn(len(c17OptStrings))]
+		var hs []int
+		for _, f := range rng.Perm(nfiles) {
+			h.Ops = append(h.Ops, c17Op{Op: "open", H: next, File: f, Opts: o, N: 1})
+			hs = append(hs, next)
+			next++
+		}
+		for i := 0; i < 4+rng.Intn(6); i++ {
+			q(hs[rng.Intn(len(hs))])
+		}
+		for _, hd := range hs {
+			closeH(hd)
+		}
 	case 8: // transactions, possibly overlapping, on one handle or on two handles on one file (no connection limit set)
 		f := rng.Intn(nfiles)
 		o := c17OptStrings[rng.Intn(len(c17OptStrings))]
@@ -827,7 +910,7 @@ func c17GenHistory(rng *rand.Rand, id string, nfiles, nq int) c17History {
 }
 
 func runC17(r *vf.Run) {
-	r.Rule("one evaluation = one history over {sql.Open, Query, Prepare+Stmt.Query, SetMaxOpenConns, Close, N goroutines using a fresh handle at once, Ping, raw connections, transactions (overlapping, committed or rolled back), Ping+Query next to open/close churn on another file} on 3 index files x 4 option strings, executed in a child built with the race detector; " +
+	r.Rule("one evaluation = one history over {sql.Open, Query, Prepare+Stmt.Query, SetMaxOpenConns, Close, N goroutines using a fresh handle at once, Ping, raw connections, transactions (overlapping, committed or rolled back), Ping+Query next to open/close churn on another file, three files under relative names that differ only in leading dots and slashes, a file that is written after its handle was first used} on 3 index files x 4 option strings, executed in a child built with the race detector; " +
 		"every query's rows are compared with the row oracle, after the last Close on a file an exclusive non-blocking flock on a fresh descriptor must succeed, a hang is decided by classifying the goroutine dump of the watchdog; " +
 		"distinct_nontrivial = distinct histories (operation sequences)")
 	r.Assume("hang verdicts come from goroutine states in the SIGQUIT dump (blocked in bbolt.flock / driver.openFile), not from elapsed time alone", "schedules of the concurrent-first-use bursts are those the runs produced")
@@ -902,6 +985,15 @@ func runC17(r *vf.Run) {
 		c17History{ID: "tx-overlap-two-handles", Ops: []c17Op{{Op: "open", H: 0, File: 1, Opts: "?preload=true"}, {Op: "open", H: 1, File: 1, Opts: "?preload=true"}, {Op: "txbegin", H: 0, N: 0}, {Op: "txbegin", H: 1, N: 1},
 			{Op: "txquery", N: 1, Q: 4}, {Op: "txend", N: 1, K: 1}, {Op: "txquery", N: 0, Q: 4}, {Op: "txend", N: 0, K: 0}, {Op: "close", H: 0}, {Op: "close", H: 1}}},
 	)
+	all = append(all,
+		c17History{ID: "relative-names", Ops: []c17Op{{Op: "open", H: 0, File: 0, N: 1}, {Op: "open", H: 1, File: 1, N: 1}, {Op: "open", H: 2, File: 2, N: 1}, {Op: "open", H: 3, File: 0, N: 1},
+			{Op: "query", H: 0, Q: 1}, {Op: "query", H: 1, Q: 1}, {Op: "query", H: 2, Q: 1}, {Op: "query", H: 3, Q: 2}, {Op: "query", H: 1, Q: 3}, {Op: "close", H: 0}, {Op: "query", H: 2, Q: 4},
+			{Op: "close", H: 1}, {Op: "close", H: 2}, {Op: "close", H: 3}}},
+		c17History{ID: "late-file", Ops: []c17Op{{Op: "open", H: 0, File: 3, Opts: "?preload=true"}, {Op: "expect-error", H: 0, Q: 1}, {Op: "appear", File: 3}, {Op: "query", H: 0, Q: 1},
+			{Op: "open", H: 1, File: 3, Opts: "?preload=true"}, {Op: "query", H: 1, Q: 2}, {Op: "close", H: 0}, {Op: "close", H: 1}, {Op: "vanish", File: 3}}},
+		c17History{ID: "late-file-first-use-16", Ops: []c17Op{{Op: "open", H: 0, File: 3}, {Op: "expect-error", H: 0, Q: 1}, {Op: "expect-error", H: 0, Q: 2}, {Op: "appear", File: 3},
+			{Op: "burst", H: 0, Q: 0, N: 16}, {Op: "query", H: 0, Q: 3}, {Op: "close", H: 0}, {Op: "vanish", File: 3}}},
+	)
 	for i := 0; i < nh; i++ {
 		id := fmt.Sprintf("h%04d", i)
 		all = append(all, c17GenHistory(r.RNG(id), id, len(spec.Files), 12))
@@ -939,12 +1031,18 @@ func runC17(r *vf.Run) {
 			attempt++
 			cdir := filepath.Join(dir, fmt.Sprintf("%s-%d", cid, attempt))
 			mustMkdir(cdir)
-			sub := c17Spec{Histories: todo}
+			wdir := filepath.Join(cdir, "w")
+			mustMkdir(wdir)
+			sub := c17Spec{Histories: todo, Cwd: wdir}
 			for fi, f := range spec.Files {
-				p := filepath.Join(cdir, fmt.Sprintf("f%d.updog", fi))
+				// three different files whose names, seen from the child's working directory, differ only in leading
+				// dots and slashes
+				p := []string{filepath.Join(wdir, "x.updog"), filepath.Join(cdir, "x.updog"), filepath.Join(wdir, ".x.updog")}[fi]
 				_ = ix.CopyFile(f.Path, p)
-				sub.Files = append(sub.Files, c17File{Path: p, Rows: f.Rows, Queries: f.Queries})
+				sub.Files = append(sub.Files, c17File{Rel: []string{"x.updog", "../x.updog", ".x.updog"}[fi], Path: p, Rows: f.Rows, Queries: f.Queries})
 			}
+			// a fourth data source whose file does not exist until a history writes it
+			sub.Files = append(sub.Files, c17File{Path: filepath.Join(wdir, "late.updog"), Rows: spec.Files[0].Rows, Queries: spec.Files[0].Queries})
 			specPath := filepath.Join(cdir, "spec.gob")
 			if err := writeSpec(specPath, sub); err != nil {
 				r.Inconclusive("cannot write the child's case specification: " + err.Error())
@@ -980,6 +1078,8 @@ func runC17(r *vf.Run) {
 				r.Count("transactions_overlapping_on_one_file", int64(hr.TxOverlaps))
 				r.Count("raw_connections_used", int64(hr.RawConns))
 				r.Count("ping_next_to_open_close_churn_rounds", int64(hr.PingChurnRounds))
+				r.Count("queries_on_a_handle_whose_file_does_not_exist_yet", int64(hr.MissingFileQueries))
+				r.Count("opens_by_relative_name", int64(hr.RelativeOpens))
 				r.Max("distinct_file_option_keys_live_at_once", int64(hr.MaxKeysLive))
 				for _, v := range hr.Violations {
 					var hist c17History
@@ -1032,6 +1132,8 @@ func runC17(r *vf.Run) {
 	r.Floor("lock probes performed", r.GetCount("lock_probes") >= 10)
 	r.Floor("overlapping transactions on one file", r.GetCount("transactions_overlapping_on_one_file") >= 1)
 	r.Floor("Ping next to open/close churn on another file", r.GetCount("ping_next_to_open_close_churn_rounds") >= 1)
+	r.Floor("files opened under relative names", r.GetCount("opens_by_relative_name") >= 3)
+	r.Floor("a file that appears after its handle was first used", r.GetCount("queries_on_a_handle_whose_file_does_not_exist_yet") >= 1)
 	r.Floor("the lock probe saw a held file (probe works)", r.GetCount("lock_probe_saw_held_file") >= 1)
 }
 
